@@ -5,7 +5,7 @@ REQUIRED = ["CifModel.C10_to_double_big", "CifModel.C10_to_double_zero", "CifMod
             "CifModel.C10_rne_is_nearest", "CifModel.C10_syntax", "CifModel.C10_su_scaled", "CifModel.C10_rejects_unchanged", "CifModel.C10_accepts_fields",
             "CifModel.C10_exponent_no_overflow", "CifModel.C10_scale_within_int", "CifModel.C10_cex_scale_exceeds_int_pinned",
             "CifModel.C10_scale_within_int_pinned_refuted",
-            "CifModel.C10_init_correctly_rounded", "CifModel.C10_init_text_roundtrip", "CifModel.C10_autoinit_text_roundtrip", "CifModel.C10_autoinit_scale", "CifModel.C10_msp_exact", "CifModel.C10_limbs_shr_pass", "CifModel.C10_limbs_shl_pass", "CifModel.C10_limbs_round_to_int", "CifModel.C10_limbs_carry_loop", "CifModel.C10_limbs_refine_to_double", "CifModel.C10_limbs_to_double_rne",
+            "CifModel.C10_init_correctly_rounded", "CifModel.C10_init_text_roundtrip", "CifModel.C10_autoinit_text_roundtrip", "CifModel.C10_autoinit_scale", "CifModel.C10_msp_exact", "CifModel.C10_limbs_shr_pass", "CifModel.C10_limbs_shl_pass", "CifModel.C10_limbs_round_to_int", "CifModel.C10_limbs_carry_loop", "CifModel.C10_limbs_refine_to_double", "CifModel.C10_limbs_digits_shift", "CifModel.C10_limbs_round_in_limb", "CifModel.C10_limbs_to_double_rne",
             "CifModel.Lemmas.NumbLimbLink.link_limb_arrays",
             "CifModel.Lemmas.NumbLink.link_chars", "CifModel.Lemmas.NumbLink.link_int", "CifModel.Lemmas.NumbLink.link_float",
             "CifModel.Lemmas.NumbLink.link_bignum", "CifModel.Lemmas.NumbLink.link_misc", "CifModel.Lemmas.NumbLink.link_ldexp"]
@@ -29,9 +29,11 @@ ASSUMPTIONS = [
 ]
 PARTIAL = [
     "C10_limbs_refine_to_digits_full (toDigitsLimbs = toDigitsBig): stated, not proved end-to-end. Proved loop invariants: C10_limbs_shr_pass / "
-    "C10_limbs_shl_pass (exact passes), C10_limbs_round_to_int, C10_limbs_carry_loop. Missing lemmas: limbsOfNat reads the fraction into the "
-    "array; chaining the digShr/digShl passes; rounding inside a limb with p10 = rhe at 10^-scale; msd of the shifted array = "
-    "limbOfPlace(flog10Rat |d|); digit generation = decDigits. The equality is evaluated on every todig request (driver computes both levels). "
+    "C10_limbs_shl_pass (exact passes), C10_limbs_round_to_int, C10_limbs_carry_loop. C10_limbs_digits_shift (after storing the fraction and applying "
+    "the exponent the array denotes |d| exactly). C10_limbs_round_in_limb (the rounding step inside a limb with p10 "
+    "leaves p10 * roundHalfEven(N/U) in limbs 0..r). Missing lemmas for digFinish: msd of the shifted array = limbOfPlace(flog10Rat |d|) "
+    "(\"\" vs \"0\" for values rounding to zero); digit generation (limbDigits/countDigits/truncation) = decDigits of the printed number; the "
+    "assembly (10^-scale = rounding unit / 10^9^121, case r < msd). The equality is evaluated on every todig request (driver computes both levels). "
     "(The to_double half, C10_limbs_refine_to_double, IS proved.)",
 ]
 LEVEL_TEXT = ("Proof at the exact-arithmetic level: the model of to_double() returns the IEEE 754 round-to-nearest-even double for every "
